@@ -138,6 +138,11 @@ func getSchemas(directories []string, types []string) (map[string][]byte, error)
 					parentPackage = parts[0]
 				}
 
+				// a type made of separators only has no name to look up
+				if strings.Trim(fieldType, "/") == "" {
+					return nil, fmt.Errorf("malformed field type: %s. Message definition: %s", line, string(subdefinition.schema))
+				}
+
 				// if it's not a primitive, we need to look it up
 				qualifiedType := fieldToQualifiedROSType(fieldType, parentPackage)
 				fieldSchema, err := getSchema(qualifiedType, directories)
